@@ -452,3 +452,47 @@ func Guard(fn func()) (panicked string, hung bool) {
 		return "", true
 	}
 }
+
+// ---------------------------------------------------------------- native fuzzing support
+
+var fuzzFlushEvery = 500
+
+// FuzzRec starts recording one native-fuzz execution for the given leg. Native fuzz workers are separate
+// processes that are killed at the end of the campaign, so statistics are flushed periodically under a
+// per-process shard label.
+func FuzzRec(leg string) *Rec {
+	l := legFor(leg)
+	if l.Shard == "" || !strings.HasPrefix(l.Shard, "pid") {
+		l.Shard = fmt.Sprintf("pid%d", os.Getpid())
+	}
+	return &Rec{leg: l}
+}
+
+// FuzzDone records the execution.
+func (r *Rec) FuzzDone() {
+	r.leg.record(r)
+	if r.leg.Evaluations%fuzzFlushEvery == 0 || r.leg.Evaluations < 20 {
+		r.leg.flushAs(r.leg.Shard)
+	}
+}
+
+// FuzzFail reports a violation found by a native fuzz execution: writes the replay file, prints the
+// VIOLATION line and fails the test (the fuzzer then stores the failing input).
+func (r *Rec) FuzzFail(t *testing.T, sig, format string, args ...any) {
+	f := &Failure{Prop: Prop(), Leg: r.leg.Leg, Sig: sig, Msg: fmt.Sprintf(format, args...), Steps: append([]any(nil), r.Steps...), Source: "native-fuzz"}
+	p := writeReplay(f)
+	r.leg.flushAs(r.leg.Shard)
+	t.Fatalf("VIOLATION property=%s replay=%s sig=%s\nDETAIL %s", f.Prop, p, sig, strings.ReplaceAll(f.Msg, "\n", " | "))
+}
+
+func (l *legStats) flushAs(shardLabel string) {
+	out := os.Getenv("VERIF_OUT")
+	if out == "" {
+		return
+	}
+	l.mu.Lock()
+	defer l.mu.Unlock()
+	b, _ := json.Marshal(l)
+	_ = os.MkdirAll(out, 0o755)
+	_ = os.WriteFile(filepath.Join(out, fmt.Sprintf("%s.%s.stats.json", l.Leg, shardLabel)), b, 0o644)
+}
